@@ -34,7 +34,7 @@ REGISTRY = {
         "level_text": 'bounded-exhaustive + seeded random differential against a diff renderer that is independent of the code under test; held = no disagreement on the cases listed in the evidence',
         "level_note": 'trusted: the harness LCS renderer (validated against GNU diff/patch by ./check selftest), the Python udiff renderer; release build semantics',
         "technique": 'runtime monitoring: generated (A,B) pairs, result-equality oracle in-process and at CLI level',
-        "parts": [L.lib_c01],
+        "parts": [L.lib_c01, K.cli_c01],
         "rule": "library layer: (A,B) pairs - every pair of versions with <= 3 (quick) / 4 (thorough) lines over {a,b,c}, with and without "
                 "final newline, absent or empty, x context width 0..3 x direction, plus random larger pairs (<= 60 lines, small vocabularies, "
                 "arbitrary bytes); the diff is rendered by the harness's own LCS renderer, parsed and applied by libpatch. Non-trivial: the diff "
@@ -67,7 +67,7 @@ REGISTRY = {
         "level_text": 'apply/rollback stacks executed for real under catch_unwind with snapshots before each apply',
         "level_note": 'trusted: snapshots of ModifiedFile public fields',
         "technique": 'runtime monitoring: snapshot/restore invariant checked after every rollback',
-        "parts": [L.lib_c04],
+        "parts": [L.lib_c04, K.cli_c04],
         "rule": "library layer: apply then roll back stacks of 1-4 file patches (modify / create / delete in both header styles, mode changes, "
                 "partial applications, fuzz) on one file; after each undo content, existence flag and permissions must equal the snapshot taken "
                 "before the corresponding apply; a panic is a violation. Non-trivial: at least one hunk applied.",
@@ -133,7 +133,7 @@ REGISTRY = {
         "level_text": 'parser and follow-up application run on bounded-exhaustive line sequences, numeric extremes, mutants; panics caught, allocations counted, aborts/hangs attributed per case',
         "level_note": 'trusted: counting GlobalAlloc wrapper; 20 s isolated re-run decides non-termination',
         "technique": 'runtime monitoring: catch_unwind + counting allocator + process-level crash attribution; Miri in thorough',
-        "parts": [L.lib_c11],
+        "parts": [L.lib_c11, K.cli_c11],
         "rule": "library layer: all sequences of <= 4 (quick) / 5 (thorough) lines over a 28-line vocabulary of meaningful patch lines, numeric "
                 "extremes (0 .. 10^30) in every numeric position of 6 templates, line/byte mutations and truncations of a corpus (testdata + generated "
                 "patches), random bytes, grammar-generated valid patches; each parsed with strip 1 and 0 under catch_unwind with a counting allocator "
@@ -225,7 +225,7 @@ REGISTRY = {
         "level_text": 'metamorphic: same case executed under 8 fuzz limits, reports and content compared',
         "level_note": 'trusted: none beyond the harness',
         "technique": 'runtime monitoring: metamorphic oracle across fuzz limits',
-        "parts": [L.lib_c20],
+        "parts": [L.lib_c20, K.cli_c20],
         "rule": "library layer: each random drifted / multi-hunk / stacked case is applied with limits 0,1,2,3,4,5,10,1000; from the least limit "
                 "F0 at which every hunk applies, all larger limits must give identical hunk reports and content. Non-trivial: F0 >= 1, or F0 = 0 "
                 "with context that a higher level could trim.",
